@@ -45,6 +45,19 @@ def spoil(arr):
             pass
 
 
+def lib_debug(fn, *args):
+    """fn(*args, debug=True) with what it prints discarded -> Outcome, or None when the function has no such
+    parameter (then nothing is judged: the flag is a convenience, not part of any property)."""
+    import contextlib
+    import io
+    from harness.core import lib
+    with contextlib.redirect_stdout(io.StringIO()):
+        o = lib(fn, *args, debug=True)
+    if not o.ok and isinstance(o.exc, TypeError) and "debug" in str(o.exc):
+        return None
+    return o
+
+
 def compare_sets(got, n_got, want, what, ctx):
     if n_got != len(got):
         raise Violation("duplicates", "%s returned %d graphs, %d distinct; %s" % (what, n_got, len(got), ctx))
